@@ -18,6 +18,7 @@ type StdChoice struct {
 	AllConsidered bool
 	Values  int
 	K       int
+	Rich    bool // optional method parameters present (ELECTRE: a custom distillation function)
 }
 
 func ChooseStd(variants []string) StdChoice {
@@ -35,6 +36,9 @@ func ChooseStd(variants []string) StdChoice {
 		}
 	}
 	c.Values = rt.IntRange("values", 1, 2)
+	if c.Method == "electreIII" {
+		c.Rich = rt.Bool("custom-distillation")
+	}
 	return c
 }
 
@@ -67,6 +71,9 @@ func (c StdChoice) BuildOpt(px string, concrete bool) *model.DecisionMaker {
 		o.CurrentChoice = []string{"a", "b", "c"}[o.A-1]
 	}
 	dm := Request(o)
+	if c.Rich && c.Method == "electreIII" {
+		dm.MethodParameters["electreDistillation"] = map[string]interface{}{"a": -0.25, "b": 0.5}
+	}
 	if c.Variant != "" {
 		dm.Biases = []interface{}{Bias(c.Variant, DefaultPropsOpt(c.Variant, dm, px, concrete))}
 	}
